@@ -11,6 +11,12 @@ fn parse_content_line(
     let mut nodes = Vec::new();
     if let Some((text_part, divert_part)) = split_inline_divert(content) {
         nodes.extend(tokenize_inline_content(text_part)?);
+        // inklecate ends the text before a divert with exactly one space
+        if let Some(Node::Text(text)) = nodes.last_mut() {
+            let trimmed = text.trim_end_matches([' ', '\t']).len();
+            text.truncate(trimmed);
+            text.push(' ');
+        }
         nodes.push(Node::Divert(parse_divert(divert_part)?));
     } else {
         nodes.extend(tokenize_inline_content(content)?);
